@@ -312,8 +312,9 @@ def replay(ctx, data):
 LEVEL_TEXT = ('Machine-checked proof (Coq 8.16.1) over a guard table regenerated from pony/orm/core.py on every run: for each of 37 operations on '
               'entity objects and collections, every prefix path the source allows in a dead session either ends in the liveness guard (session-is-over '
               'error, nothing written) or is a pure read of loaded data, for all states (strict or not, deleted or not, outside or inside a new '
-              'session) - except four recorded (operation, path) shapes that are refuted by witnesses; the 14 mutators/loaders proper are shown to '
-              'start with the guard unconditionally. SessionCache.close is hand-modelled and proved to keep loaded scalars and fully loaded '
+              'session) - except one recorded (operation, path) shape (in-place change of a tracked Json value, refuted by a witness); the 15 mutators/loaders '
+              'proper (incl. SetInstance.create) are shown to start with the guard unconditionally, and is_empty / create / flush (repaired by 743d82e) '
+              'are covered on every path. SessionCache.close is hand-modelled and proved to keep loaded scalars and fully loaded '
               'collections readable when not strict, to refuse everything else, and to refuse everything after a strict session. Tied to the '
               'implementation by an exhaustive product of 39 operations x 11 statuses x 4 endings x strict x 2 contexts on SQLite.')
 LEVEL_NOTE = ('The proof is about prefix paths extracted by an ast scanner (trusted, fail-closed, cross-checked against every observed outcome); what '
